@@ -153,6 +153,39 @@ def cer_outcome(known: bool, na: int, nk: int, ca: int, cc: int, cv: int, relay:
     return hx.check(inputs, obs, exp, "CER outcome: 2001+ready / 3010+closing / 5010+not ready, CEA carries the node's identity and application ids")
 
 
+def cea_reject_then_traffic(result: int, k1: int, k2: int, one_read: bool) -> bool:
+    """
+    pre: 0 <= result <= 0x7fffffff and result != 2001 and 0 <= k1 <= 3 and 0 <= k2 <= 3
+    post: _
+    """
+    hx.begin()
+    from harness import hist as H
+    kinds = ["dwr", "app_request", "dpr", "app_answer"]
+    a, b2 = kinds[hx.concretize_range(k1, 0, 4)], kinds[hx.concretize_range(k2, 0, 4)]
+    inputs = (result, k1, k2, one_read)
+    try:
+        h = H.Hist(init="fresh", persistent=False)
+        n, p, app = h.n, h.p, h.app
+        h.ev_dial("ok")
+        c = h.newest()
+        s = n.peer_sockets.get(c.ident)
+        s.out = b""
+        # the rejecting CEA with more messages right behind it (same TCP segment, or the next one)
+        data = [B.cea(PEER, result=result, hbh=5, e2e=5).as_bytes(), _msg(a, 31, 32).as_bytes(), _msg(b2, 33, 34).as_bytes()]
+        if one_read:
+            h._push(c, b"".join(data))
+        else:
+            s.inq.append(data[0])
+            s.inq.append(data[1] + data[2])
+            h.settle()
+        sent = [(m.header.is_request, m.header.command_code) for m in WORLD.frames(s.out)]
+        obs = (sent, len(app.requests), len(app.answers), c.state, c.ident in n.connections, app.is_ready.is_set(), p.connection is None)
+    except Exception as e:
+        return hx.fail(inputs, "raised %s: %s" % (type(e).__name__, str(e)[:80]))
+    return hx.check(inputs, obs, ([], 0, 0, B.PEER_CLOSED, False, False, True),
+                    "after a rejecting CEA nothing that follows on the connection is answered or shown to an application, and the connection is closed")
+
+
 SPELL = [lambda s: s.lower(), lambda s: ".".join(w.capitalize() for w in s.split(".")), lambda s: s.upper()]
 
 
@@ -359,6 +392,7 @@ def specs(tier, seed, carve):
     out = [dict(id="gate_step", fn="gate_step", params={}, timeout=300, bound="inbound/outbound x pre-CE state {fresh, after 3010 / rejected CEA, after 5010} x 9 message kinds"),
            dict(id="cea_outcome", fn="cea_outcome", params={}, timeout=120, bound="all 2^32 CEA result codes"),
            dict(id="ce_timeout", fn="ce_timeout", params={}, timeout=200, bound="both directions, elapsed 0..200 s, node timeout 1..60, per-peer timeout 0..60 (0 = unset)"),
+           dict(id="cea_reject_then_traffic", fn="cea_reject_then_traffic", params={}, timeout=400, bound="outbound connection, CEA with any result != 2001 followed at once by two messages of {DWR, application request, DPR, application answer}, in the same read or the next"),
            dict(id="cer_case", fn="cer_case", params={}, timeout=300, bound="peer configured in lower / Capitalised / UPPER case x Origin-Host of its CER (inbound) or CEA (outbound) in each of the three spellings"),
            dict(id="ce_timeout_traffic", fn="ce_timeout_traffic", params={}, timeout=600, bound="both directions through the real I/O loop; TCP handshake lasting 0..60 s; ignored traffic (a whole DWR / 10 bytes of one / none) arriving at any second before the check; elapsed 0..120 s; timeout 1..60")]
     import random
